@@ -4,7 +4,7 @@ CONSTANTS FlawShallowListFreeze = FALSE
  FlawAppendSharesCapacity = FALSE
  FlawSortedAliasesOrdered = FALSE
  OnlyTargets = {}
- DeepTargets = {}
+ DeepTargets = {"x", "L", "mk", "A", "N0", "D"}
  MaxMut = 2
  DeepVias = {"direct", "alias", "arg", "compr", "loop"}
  LastVias = {}
